@@ -270,6 +270,8 @@ class Interp:
         c = z3.simplify(z3.Select(self.st.h.cls, V.id(v)))
         if z3.is_int_value(c):
             return O.class_by_id(c.as_long())
+        if ("cls", v.get_id()) in self.st.tags:
+            return O.class_by_id(self.st.tags[("cls", v.get_id())])
         # ask the solver for a candidate and confirm
         cand = self.st.model_value(z3.Select(self.st.h.cls, V.id(v)))
         if cand is not None and z3.is_int_value(cand) and self.st.valid(z3.Select(self.st.h.cls, V.id(v)) == cand):
@@ -986,6 +988,32 @@ class Interp:
                     continue
                 except OutsideSubset:
                     pass
+            elif _is_cheap(nxt):
+                # operand without calls: try to evaluate it without forking (under the guard), then merge by ite
+                guard = c if is_and else z3.Not(c)
+                self.st.pc.append(guard)
+                try:
+                    other = self.models.pure_eval(self, lambda: self.ev(nxt, env))
+                    ok = True
+                except OutsideSubset:
+                    ok = False
+                finally:
+                    if self.st.pc and self.st.pc[-1] is guard:
+                        self.st.pc.pop()
+                    else:
+                        # facts were appended after the guard: keep them conditional on it
+                        idx = max(i for i, p_ in enumerate(self.st.pc) if p_ is guard)
+                        tail = self.st.pc[idx + 1:]
+                        del self.st.pc[idx:]
+                        for p_ in tail:
+                            self.st.pc.append(z3.Implies(guard, p_))
+                if ok:
+                    try:
+                        lc, lo = self.lift(cur), self.lift(other)
+                        cur = z3.If(c, lo, lc) if is_and else z3.If(c, lc, lo)
+                        continue
+                    except OutsideSubset:
+                        pass
             take_next = self.st.decide(c if is_and else z3.Not(c), f"boolop@{e.lineno}")
             if take_next:
                 cur = self.ev(nxt, env)
@@ -1468,7 +1496,7 @@ def _inv_list(inv):
 
 def _has_exit(ifnode):
     for n in ast.walk(ifnode):
-        if isinstance(n, (ast.Return, ast.Break, ast.Continue)):
+        if isinstance(n, (ast.Return, ast.Break, ast.Continue, ast.For, ast.While, ast.Try, ast.With)):
             return True
         if isinstance(n, ast.Raise):
             return True
@@ -1486,6 +1514,15 @@ def _is_simple(e):
     if isinstance(e, ast.Attribute) and isinstance(e.value, ast.Name) and e.value.id == "self":
         return False
     return False
+
+
+def _is_cheap(e):
+    """expression made of names, constants, attribute loads, comparisons, `not`, subscripts: no calls"""
+    for n in ast.walk(e):
+        if isinstance(n, (ast.Call, ast.Lambda, ast.ListComp, ast.DictComp, ast.SetComp, ast.GeneratorExp, ast.NamedExpr,
+                          ast.Await, ast.Yield, ast.YieldFrom, ast.Dict, ast.List, ast.Set, ast.JoinedStr)):
+            return False
+    return True
 
 
 def _is_generator(fnode):
@@ -1575,7 +1612,8 @@ def _framed_havoc(old, new, n0, allowed):
     for n in names:
         kf = z3.And([keep] + [r != V.id(x) for (x, flds) in partial if n in flds])
         h.fld[n] = z3.Lambda([r], z3.If(kf, z3.Select(old.fld[n], r), z3.Select(new.fld[n], r)))
-        h.has[n] = z3.Lambda([r], z3.If(kf, z3.Select(old.has[n], r), z3.Select(new.has[n], r)))
+        # attribute *presence* of a field-level framed object is kept (assignments do not remove attributes)
+        h.has[n] = z3.Lambda([r], z3.If(keep, z3.Select(old.has[n], r), z3.Select(new.has[n], r)))
     return h
 
 
